@@ -303,6 +303,47 @@ def fresh_process_histories(res, tier):
     return stats
 
 
+def unloadable_then_good(res):
+    """Earlier "programs" that cannot even be loaded (a path without a Python file behind it, a directory, a file that does
+    not exist, a file with a syntax error), with and without the compile timers: the program compiled afterwards in the same
+    interpreter must compile as it does alone."""
+    tmp = tempfile.mkdtemp(prefix="nvc08u")
+    n = 0
+    try:
+        good = os.path.join(tmp, "good.py")
+        with open(good, "w", encoding="utf-8") as f:
+            f.write("from nada_dsl import *\n\ndef nada_main():\n    p = Party(name='P')\n    a = SecretInteger(Input(name='a', party=p))\n"
+                    "    return [Output(a * a, 'o', p)]\n")
+        noext = os.path.join(tmp, "noext")
+        with open(noext, "w", encoding="utf-8") as f:
+            f.write("this is not a program\n")
+        broken = os.path.join(tmp, "broken.py")
+        with open(broken, "w", encoding="utf-8") as f:
+            f.write("from nada_dsl import *\ndef nada_main(:\n")
+        os.makedirs(os.path.join(tmp, "adir.py"), exist_ok=True)
+        bads = [noext, os.path.join(tmp, "missing.py"), os.path.join(tmp, "adir.py"), broken]
+        for timers in (False, True):
+            for bad in bads:
+                env = dict(os.environ, PYTHONPATH=core.REPO + os.pathsep + os.path.join(core.VERIF, "harness"), PYTHONDONTWRITEBYTECODE="1")
+                env.pop("NADA_TIMER", None)
+                if timers:
+                    env["NV_TIMERS"] = "1"
+                p = subprocess.run([sys.executable, "-m", "nv.real.fresh_hist", "script", bad, bad, good], cwd=tmp, env=env,
+                                   capture_output=True, text=True, timeout=120)
+                try:
+                    outs = json.loads(p.stdout)
+                except ValueError:
+                    raise core.Infra(f"fresh_hist failed: {(p.stderr or p.stdout)[-300:]}")
+                n += 1
+                if "mir" not in outs[-1]:
+                    res.violation({"property": "C08", "kind": "after-unloadable", "bad": os.path.basename(bad), "timers": timers, "result": outs},
+                                  f"after two attempts to compile {os.path.basename(bad)!r} ({outs[0].get('err')}), timers {'on' if timers else 'off'}: "
+                                  f"a correct program fails with {outs[-1].get('err')}: {outs[-1].get('msg')}; alone it compiles"[:400])
+    finally:
+        shutil.rmtree(tmp, ignore_errors=True)
+    return n
+
+
 def names_of(mir):
     out = set()
     out.update(("input", i["name"]) for i in mir["inputs"])
@@ -358,6 +399,7 @@ def run(res, tier):
     ep = entry_point_histories(res, tier)
     reset_globals()
     fp = fresh_process_histories(res, tier)
+    fp["after_unloadable_programs"] = unloadable_then_good(res)
     for idx, d, combined in diffs[:5]:
         res.broken.append({"decl": "K3 correspondence (history run: model vs real implementation)",
                            "msg": json.dumps(d, default=str)[:500], "history": combined})
@@ -380,7 +422,22 @@ def run(res, tier):
     ]
 
 
+class _Collect:
+    def __init__(self):
+        self.violations = []
+
+    def violation(self, obj, text, **kw):
+        self.violations.append(text)
+
+
 def replay(obj):
+    if obj.get("kind") == "after-unloadable":
+        c = _Collect()
+        unloadable_then_good(c)
+        print(c.violations[:3] or "ok")
+        if c.violations:
+            print("VIOLATION property=C08 replay=(replayed)")
+        return 1 if c.violations else 0
     if obj.get("kind") == "fresh-process-history":
         tmp = tempfile.mkdtemp(prefix="nvc08f")
         try:
